@@ -18,7 +18,8 @@ R-lin    exhaustive exploration of the *interleaved product* of the CFGs
          word or to a ring element is a scheduling point; every complete
          interleaving's history (plus a final drain) must be linearizable
          w.r.t. the sequential specification, with the relaxation the
-         property states for push failures.
+         property states for push failures; the final phase drains, fills to
+         capacity and drains again (no slot may have been lost).
 """
 import itertools
 import multiprocessing
@@ -166,7 +167,10 @@ def run_lin(job):
         if kind == 'upool':
             drain = [('upool_vacuum', [Q])]
         else:
+            # drain, then fill to capacity (every slot must still be there), then drain again
             drain = [(opname(kind, 'O'), [Q]) for _ in range(drain_n)]
+            drain += [(opname(kind, 'U'), [Q, ('obj', 'f%d' % i)]) for i in range(L + 1)]
+            drain += [(opname(kind, 'O'), [Q]) for _ in range(drain_n)]
         ex = Explorer(prog, prog.hdr, sh, threads, final_ops=drain, max_states=max_states,
                       machine_cls=PoolMachine if kind == 'upool' else RingMachine)
         bad = []
@@ -186,7 +190,8 @@ def run_lin(job):
                 dup = len(fm.freed_cb) != len(vac)
             else:
                 for (i, r, f, l) in fm.results:
-                    ops.append({'id': 'drain.%d' % i, 'name': drain[i][0], 'arg': None, 'ret': r, 'first': f, 'last': l})
+                    ops.append({'id': 'final.%d' % i, 'name': drain[i][0], 'arg': drain[i][1][1] if len(drain[i][1]) > 1 else None,
+                                'ret': r, 'first': f, 'last': l})
             for o in ops:
                 o['overlap'] = sum(1 for p in ops if p is not o and not (p['last'] < o['first'] or o['last'] < p['first']))
             if kind == 'upool':
@@ -330,7 +335,7 @@ def lin_configs(tier):
                 for p in two:
                     cfg.append((kind, L, npre, p.split('|')))
         for L, npre, p in ((2, 1, 'UO|O'), (2, 1, 'OU|U'), (2, 2, 'OO|U'), (2, 0, 'UU|O'), (2, 1, 'OU|O'), (2, 2, 'OUO|O'),
-                           (2, 2, 'OOU|O'), (3, 2, 'OOU|O'), (3, 3, 'OOU|O'), (3, 3, 'OOUU|O'), (2, 1, 'U|O|O'), (2, 1, 'U|U|O')):
+                           (2, 2, 'OOU|O'), (3, 2, 'OOU|O'), (3, 3, 'OOU|O'), (3, 3, 'OOUU|O'), (2, 1, 'U|O|O'), (2, 1, 'U|U|O'), (3, 2, 'O|OO'), (3, 2, 'OO|OU')):
             cfg.append((kind, L, npre, p.split('|')))
     for L, npre, p in ((1, 0, 'OU|OU'), (1, 1, 'OU|O'), (2, 1, 'OU|OU'), (2, 2, 'OOU|O'), (2, 2, 'OOUU|O')):
         cfg.append(('upool', L, npre, p.split('|')))
